@@ -1,0 +1,85 @@
+// Verification hooks: exported views of internal kernels and tuning variables.
+// Only built with -tags verif; the default build does not contain this file.
+
+//go:build verif
+// +build verif
+
+package decimal
+
+import "sync/atomic"
+
+// VerifKernels exposes each decimal kernel as built (assembly on amd64 unless
+// decimal_pure_go) next to its portable Go twin.
+var VerifKernels = struct {
+	Mul10WW, Mul10WW_g         func(x, y Word) (z1, z0 Word)
+	Div10WW, Div10WW_g         func(x1, x0, y Word) (q, r Word)
+	Div10W, Div10W_g           func(n1, n0 Word) (q, r Word)
+	Add10VV, Add10VV_g         func(z, x, y []Word) (c Word)
+	Sub10VV, Sub10VV_g         func(z, x, y []Word) (c Word)
+	Add10VW, Add10VW_g         func(z, x []Word, y Word) (c Word)
+	Sub10VW, Sub10VW_g         func(z, x []Word, y Word) (c Word)
+	Shl10VU, Shl10VU_g         func(z, x []Word, s uint) (c Word)
+	Shr10VU, Shr10VU_g         func(z, x []Word, s uint) (c Word)
+	MulAdd10VWW, MulAdd10VWW_g func(z, x []Word, y, r Word) (c Word)
+	AddMul10VVW, AddMul10VVW_g func(z, x []Word, y Word) (c Word)
+	Div10VWW, Div10VWW_g       func(z, x []Word, y, xn Word) (r Word)
+	DivWVW, DivWVW_g           func(z []Word, xn Word, x []Word, y Word) (r Word)
+}{
+	mul10WW, mul10WW_g,
+	div10WW, div10WW_g,
+	div10W, div10W_g,
+	add10VV, add10VV_g,
+	sub10VV, sub10VV_g,
+	add10VW, add10VW_g,
+	sub10VW, sub10VW_g,
+	shl10VU, shl10VU_g,
+	shr10VU, shr10VU_g,
+	mulAdd10VWW, mulAdd10VWW_g,
+	addMul10VVW, addMul10VVW_g,
+	div10VWW, div10VWW_g,
+	divWVW, divWVW_g,
+}
+
+// VerifMul returns x*y for little-endian base-10^19 word slices (normalized result).
+func VerifMul(x, y []Word) []Word { return dec(nil).mul(dec(x).norm(), dec(y).norm()) }
+
+// VerifSqr returns x*x through the squaring code.
+func VerifSqr(x []Word) []Word { return dec(nil).sqr(dec(x).norm()) }
+
+// VerifDiv returns the quotient and remainder of u / v (v != 0).
+func VerifDiv(u, v []Word) (q, r []Word) {
+	qq, rr := dec(nil).div(nil, dec(u).norm(), dec(v).norm())
+	return qq, rr
+}
+
+// VerifShl / VerifShr are dec.shl / dec.shr with the destination chosen by the caller
+// (nil, the source itself, or a slice of the same array), as the library calls them.
+func VerifShl(z, x []Word, s uint) []Word { return dec(z).shl(dec(x), s) }
+func VerifShr(z, x []Word, s uint) []Word { return dec(z).shr(dec(x), s) }
+
+// VerifThresholds returns the current Karatsuba / squaring thresholds.
+func VerifThresholds() (karatsuba, basicSqr, karatsubaSqr int) {
+	return decKaratsubaThreshold, decBasicSqrThreshold, decKaratsubaSqrThreshold
+}
+
+// VerifSetThresholds sets the tuning thresholds (not concurrency safe).
+func VerifSetThresholds(karatsuba, basicSqr, karatsubaSqr int) {
+	decKaratsubaThreshold, decBasicSqrThreshold, decKaratsubaSqrThreshold = karatsuba, basicSqr, karatsubaSqr
+}
+
+// VerifDivRecursiveThreshold is the (constant) size at which division turns recursive.
+const VerifDivRecursiveThreshold = divRecursiveThreshold
+
+var verifHits [4]uint64
+
+// verifHit counts how often an instrumented branch is taken.
+func verifHit(i int) { atomic.AddUint64(&verifHits[i], 1) }
+
+// VerifHits returns the branch counters: [0] divBasic add-back.
+func VerifHits() [4]uint64 {
+	var h [4]uint64
+	for i := range h {
+		h[i] = atomic.LoadUint64(&verifHits[i])
+	}
+	return h
+}
